@@ -258,6 +258,104 @@ theorem Mgr.created_starts_lt (s : Mgr) (ops : List (Nat × Nat × MOp))
 
 /-! ## manager: hooks -/
 
+/-! ### `Epoch{id}` for an earlier epoch -/
+
+/-- the history contains no configuration update -/
+def NoCfgOps : List (Nat × Nat × MOp) → Prop
+  | [] => True
+  | x :: xs => (∀ c, x.2.2 ≠ .updateConfig c) ∧ NoCfgOps xs
+
+/-- what a config-free history keeps of the state it started from: same config, `k` epochs later, each one
+    duration long -/
+def Ahead (s t : Mgr) (k : Nat) : Prop :=
+  t.cfg = s.cfg ∧ t.cur.id = s.cur.id + k ∧ t.cur.start = s.cur.start + k * s.cfg.duration ∧
+  (k = 0 → t.cur = s.cur) ∧ (0 < k → t.cur.start ≤ U64MAX)
+
+theorem Mgr.next_ahead {s t : Mgr} {k : Nat} (x : Nat × Nat × MOp) (hx : ∀ c, x.2.2 ≠ .updateConfig c)
+    (h : Ahead s t k) : Ahead s (t.next x) k ∨ Ahead s (t.next x) (k + 1) := by
+  obtain ⟨now, sender, op⟩ := x
+  unfold Mgr.next
+  cases hstep : t.step now sender op with
+  | err => exact Or.inl h
+  | panic => exact Or.inl h
+  | ok r =>
+    obtain ⟨t', ms⟩ := r
+    cases op with
+    | create =>
+      right
+      simp only [Mgr.step, Mgr.createEpoch] at hstep
+      split at hstep
+      · cases hstep
+      · split at hstep
+        · cases hstep
+        · split at hstep
+          · cases hstep
+          · split at hstep
+            · cases hstep
+            · next _ _ _ hov =>
+              cases hstep
+              obtain ⟨hc, hid, hst, _, _⟩ := h
+              refine ⟨hc, ?_, ?_, ?_, ?_⟩
+              · show t.cur.id + 1 = s.cur.id + (k + 1); omega
+              · show t.cur.start + t.cfg.duration = s.cur.start + (k + 1) * s.cfg.duration
+                rw [hc, hst, Nat.add_mul, Nat.one_mul]; omega
+              · intro hk; omega
+              · intro _
+                show t.cur.start + t.cfg.duration ≤ U64MAX
+                omega
+    | addHook hk =>
+      left
+      simp only [Mgr.step, Mgr.addHook] at hstep
+      split at hstep
+      · cases hstep
+      · split at hstep
+        · cases hstep
+        · cases hstep; exact h
+    | removeHook hk =>
+      left
+      simp only [Mgr.step, Mgr.removeHook] at hstep
+      split at hstep
+      · cases hstep
+      · split at hstep
+        · cases hstep; exact h
+        · cases hstep
+    | updateConfig c => exact absurd rfl (hx c)
+
+theorem Mgr.reach_ahead (s : Mgr) (ops : List (Nat × Nat × MOp)) (hn : NoCfgOps ops) :
+    ∃ k, Ahead s (s.reach ops) k := by
+  suffices H : ∀ (ops : List (Nat × Nat × MOp)) (t : Mgr) (k : Nat), NoCfgOps ops → Ahead s t k →
+      ∃ k', Ahead s (t.reach ops) k' from
+    H ops s 0 hn ⟨rfl, by omega, by omega, fun _ => rfl, fun h => by omega⟩
+  intro ops
+  induction ops with
+  | nil => intro t k _ h; exact ⟨k, h⟩
+  | cons x xs ih =>
+    intro t k hn h
+    simp only [Mgr.reach]
+    rcases Mgr.next_ahead x hn.1 h with h' | h'
+    · exact ih _ _ hn.2 h'
+    · exact ih _ _ hn.2 h'
+
+theorem Mgr.queryEpoch_of_ahead {s t : Mgr} {k : Nat} (h : Ahead s t k) : t.queryEpoch s.cur.id = .ok s.cur := by
+  obtain ⟨hc, hid, hst, h0, hpos⟩ := h
+  unfold Mgr.queryEpoch
+  by_cases hk : k = 0
+  · subst hk
+    rw [if_pos (by omega), h0 rfl]
+  · have hk' : 0 < k := Nat.pos_of_ne_zero hk
+    have hle := hpos hk'
+    rw [if_neg (by omega)]
+    have hd : t.cur.id - s.cur.id = k := by omega
+    simp only [hd, hc]
+    have hm : s.cfg.duration * k = k * s.cfg.duration := Nat.mul_comm _ _
+    rw [if_neg (by omega), if_neg (by omega)]
+    congr 1
+    cases hs : s.cur with
+    | mk i st =>
+      simp only [hs] at hst ⊢
+      congr 1
+      omega
+
 theorem Mgr.next_hooks_nodup {s : Mgr} (x : Nat × Nat × MOp) (h : s.hooks.Nodup) : (s.next x).hooks.Nodup := by
   obtain ⟨now, sender, op⟩ := x
   cases hs : s.step now sender op with
